@@ -25,3 +25,45 @@ func IDs() []string {
 	sort.Strings(out)
 	return out
 }
+
+// sibling runs (once per program) the check of another property and returns its report, so that
+// rules which are necessary conditions of several properties can be imported (kit.Report.Import).
+// While a sibling runs, its own imports are skipped.
+var (
+	siblingCache = map[*load.Program]map[string]*kit.Report{}
+	siblingDepth int
+)
+
+func sibling(p *load.Program, id string) *kit.Report {
+	if siblingDepth > 0 {
+		return nil
+	}
+	if siblingCache[p] == nil {
+		siblingCache[p] = map[string]*kit.Report{}
+	}
+	if r, ok := siblingCache[p][id]; ok {
+		return r
+	}
+	siblingDepth++
+	defer func() { siblingDepth-- }()
+	sub := kit.NewReport(id, "quick", 0)
+	func() {
+		defer func() {
+			if rec := recover(); rec != nil {
+				sub.Unknown("analysis-failed", "panic", "-", "%v", rec)
+			}
+		}()
+		registry[id](p, sub)
+	}()
+	siblingCache[p][id] = sub
+	return sub
+}
+
+// importRules imports rules of a sibling property into r (no-op while running as a sibling).
+func importRules(p *load.Program, r *kit.Report, from, why string, floor int, match func(*kit.Obligation) bool, rules ...string) {
+	sub := sibling(p, from)
+	if sub == nil {
+		return
+	}
+	r.Import(sub, why, floor, match, rules...)
+}
